@@ -23,6 +23,13 @@ MUTANTS = [
     ("C20", "cuqi/operator/_operator.py", "self._matrix = (self._diff_op.T @ self._diff_op).tocsc()", "self._matrix = (self._diff_op @ self._diff_op.T).tocsc()"),
     ("C20", "cuqi/distribution/_lmrf.py", "return len(Dx)*(-(np.log(2)+np.log(self.scale)))", "return self.dim*(-(np.log(2)+np.log(self.scale)))"),
     ("C20", "cuqi/distribution/_gmrf.py", "const = 0.5*(self._rank*(np.log(self.prec)-np.log(2*np.pi)) + self._logdet)", "const = 0.5*(self.dim*(np.log(self.prec)-np.log(2*np.pi)) + self._logdet)"),
+    # C06
+    ("C06", "cuqi/experimental/mcmc/_rto.py", "        self.b_tild = np.hstack([L@likelihood.data for (L, likelihood) in zip(L1, self.likelihoods)]+ [L2mu]) ", "        self.b_tild = np.hstack([L@likelihood.data for (L, likelihood) in zip(L1, self.likelihoods)]+ [0*L2mu]) "),
+    ("C06", "cuqi/experimental/mcmc/_rto.py", "                        out1 += likelihood.model.adjoint(likelihood.distribution.sqrtprec.T@x[idx_start:idx_end])", "                        out1 += likelihood.model.adjoint(likelihood.distribution.sqrtprec@x[idx_start:idx_end])"),
+    ("C06", "cuqi/distribution/_gaussian.py", "        return (self.sqrtprec@mean).flatten()", "        return (self.sqrtprec.T@self.sqrtprec@mean).flatten()"),
+    ("C06", "cuqi/sampler/_rto.py", "            y = self.b_tild + np.random.randn(len(self.b_tild))\n            sim = CGLS(self.M, y, samples[:, s], self.maxit, self.tol, self.shift)", "            y = self.b_tild + np.hstack([np.random.randn(len(self.b_tild)-self.n), np.zeros(self.n)])\n            sim = CGLS(self.M, y, samples[:, s], self.maxit, self.tol, self.shift)"),
+    ("C06", "cuqi/experimental/mcmc/_laplace_approximation.py", "            dd =  1/np.sqrt((D @ x_k)**2 + self.beta*np.ones(n))", "            dd =  1/np.sqrt((D @ x_k)**2 + self.beta**2*np.ones(n))"),
+    ("C06", "cuqi/sampler/_laplace_approximation.py", "                out2 = np.sqrt(1/self.target.prior.scale)*(self._L2 @ x)", "                out2 = (1/self.target.prior.scale)*(self._L2 @ x)"),
     # C07
     ("C07", "cuqi/model/_model.py", "transpose = LinearModel(self.adjoint,self.forward,self.domain_geometry,self.range_geometry)", "transpose = LinearModel(self.adjoint,self.forward,self.range_geometry,self.domain_geometry)"),
     ("C07", "cuqi/testproblem/_testproblem.py", "    P = np.flipud(np.fliplr(P)) # Flip PSF", "    P = np.flipud(P) # Flip PSF"),
